@@ -299,13 +299,14 @@ func c10UploadAlways(c *Ctx) *RuleResult {
 		if runErr == "" {
 			continue
 		}
+		uploaders := uploadOutputsCallers(p)
 		ast.Inspect(u.Decl.Body, func(n ast.Node) bool {
 			call, ok := n.(*ast.CallExpr)
 			if !ok {
 				return true
 			}
 			sel, ok := ast.Unparen(call.Fun).(*ast.SelectorExpr)
-			if !ok || sel.Sel.Name != "UploadOutputs" {
+			if !ok || (sel.Sel.Name != "UploadOutputs" && !uploaders[calleeOf(info, call)]) {
 				return true
 			}
 			construct := constructOf(u, "UploadOutputs")
@@ -514,4 +515,18 @@ func sameInnermostBlock(body *ast.BlockStmt, a, b ast.Node) bool {
 		return h
 	}
 	return holder(a) != nil && holder(a) == holder(b)
+}
+
+// uploadOutputsCallers: the functions of the builder package (other than UploadOutputs itself) that
+// call OutputHierarchy.UploadOutputs directly or through one another: a call of one of them in the
+// executor is "the call that uploads the outputs".
+func uploadOutputsCallers(p *Program) map[*types.Func]bool {
+	up := p.LookupFunc(builderPkg, "OutputHierarchy.UploadOutputs")
+	m := mayDo(p.UnitsIn(builderPkg), func(x *FuncUnit, n ast.Node) bool {
+		call, ok := n.(*ast.CallExpr)
+		return ok && calleeOf(x.Info(), call) == up
+	})
+	delete(m, up)
+	delete(m, p.LookupFunc(builderPkg, "localBuildExecutor.Execute"))
+	return m
 }
